@@ -42,12 +42,16 @@ MapSets == << <<MapR(1, 16, "bin1", "b1", FALSE), MapR(2, 48, "bin2", "", TRUE)>
               \* partly symbolised: line numbers / file names but no has-functions flag (e.g. after a merge that ANDs the flags)
               <<[MapR(1, 16, "bin1", "b1", FALSE) EXCEPT !.hasline = TRUE], [MapR(2, 48, "bin2", "b2", FALSE) EXCEPT !.hasfile = TRUE]>>,
               \* two mappings of ONE binary (two segments, or the same library in merged profiles), only the second symbolised
-              <<MapR(1, 16, "bin1", "b1", FALSE), MapR(2, 48, "bin1", "b1", TRUE)>> >>
+              <<MapR(1, 16, "bin1", "b1", FALSE), MapR(2, 48, "bin1", "b1", TRUE)>>,
+              \* a mapping without a range (limit 0: the one the driver makes up for profiles that have none, given a file name)
+              <<[MapR(1, 0, "bin1", "", FALSE) EXCEPT !.limit = 0], MapR(2, 48, "bin2", "b2", TRUE)>> >>
 \* locations: first mapping at its start and at limit-1; second mapping (symbolised or not) at start
 LocsFor(maps, fns, symd) ==
   << LocR(1, maps[1].id, maps[1].start, IF maps[1].hasline /\ Len(fns) > 0 THEN <<LineR(fns[1].id)>> ELSE <<>>),
-     LocR(7, maps[1].id, maps[1].limit - 1, <<>>),
+     LocR(7, maps[1].id, IF maps[1].limit = 0 THEN maps[1].start + 5 ELSE maps[1].limit - 1, <<>>),
      LocR(3, maps[2].id, maps[2].start, IF symd /\ Len(fns) > 0 THEN <<LineR(fns[1].id)>> ELSE <<>>) >>
+     \* a second location at the address of the first, without lines, where the first has some (distinct locations may share an address)
+     \o (IF maps[1].hasline /\ Len(fns) > 0 THEN << LocR(9, maps[1].id, maps[1].start, <<>>) >> ELSE <<>>)
 Profiles == { Prof(FnSets[f], MapSets[m], LocsFor(MapSets[m], FnSets[f], MapSets[m][2].hasfn)) : f \in DOMAIN FnSets, m \in DOMAIN MapSets }
 
 Modes == {"", "local", "fastlocal", "remote", "none", "force", "local:force", "remote:force", "demangle=full", "demangle=none",
